@@ -57,7 +57,8 @@ Init == /\ expect = [t |-> "none"]
              /\ (op \notin SolveOps => prec = "none" /\ mf = 500 /\ ls = 1 /\ sys = "na")
              \* relative accuracy is scale invariant: badly scaled cores / tiny magnitudes are inputs like any other
              /\ (sc = "bigcore" => op \in ProductOps /\ Len(N) >= 2 /\ g = "none")
-             /\ (sc = "small" => op \in CrossOps \cup ProductOps /\ g = "none")
+             /\ (sc = "small" => op \in CrossOps \cup ProductOps \cup SolveOps \cup DivideOps /\ g = "none")
+             \* (solve: right-hand side times 1e-5 and operator times 1e3; divide: numerator times 1e-5, denominator times 1e3)
              \* amen_solve: data = "rand" is a consistent right-hand side b = A x* with x* of rank r, data = "decay" a random
              \* right-hand side of rank r (the solution then has larger ranks and the local systems exceed max_full)
              /\ (op \in SolveOps => sys # "na" /\ sq)
